@@ -1235,6 +1235,9 @@ struct ssl
     unsigned char *inbuf;
     unsigned char *outbuf;
     int32 inlen;                /* Bytes unprocessed in inbuf */
+    uint32 inProcessedOff;      /* Offset in inbuf of what follows the record
+                                   last handed to the application (it may have
+                                   been preceded by records that were skipped) */
     int32 outlen;               /* Bytes unsent in outbuf */
     int32 insize;               /* Total allocated size of inbuf */
     int32 outsize;              /* Total allocated size of outbuf */
